@@ -163,6 +163,43 @@ class AcctSim(object):
         self.tainted = False
         self.pos_scale = [0.0] * len(self.specs)
         self.nlv_obs = []
+        # schedule dimension: a second, unrelated account (its own exchange, broker and fees) lives in the same
+        # process, holds the same contracts at other prices and is traded/valued in between the primary's operations
+        self.nb = None
+        if scenario.get("neighbour") is not None:
+            import random as _random
+            nb_ex = Exchange()
+            nb_ex.process_EventNBBO(EventNBBO(self.t, Cash(), 1.0, 1.0))
+            nb_ex.process_EventNBBO(EventNBBO(self.t, Rate(world.RATE_NAME), 0.0, 0.0))
+            self.nb = {"ex": nb_ex, "broker": Broker(nb_ex, deposit=3.0 * abs(self.deposit) + 1e6, fees=world.build_fees({})),
+                       "rng": _random.Random("nb:{}".format(scenario["neighbour"])), "quoted": set()}
+
+    def neighbour_activity(self, op):
+        """The unrelated account moves: never an oracle subject itself (whatever it raises is its own business)."""
+        nb = self.nb
+        r = nb["rng"]
+        try:
+            if op["op"] == "quote" and not (isnan(op["bid"]) or isnan(op["ask"])):
+                i = op["c"]
+                f = r.choice([0.37, 0.8, 1.0, 1.31, 2.5])
+                nb["ex"].process_EventNBBO(EventNBBO(self.t, self.contracts[i], op["bid"] * f, op["ask"] * f))
+                nb["quoted"].add(i)
+            if nb["quoted"]:
+                i = r.choice(sorted(nb["quoted"]))
+                what = r.random()
+                if what < 0.45:
+                    book = nb["ex"][self.contracts[i]]
+                    q = r.choice([1.0, -1.0, 2.5, -3.0, 10.0])
+                    nb["broker"].transact(Trade(self.t, self.contracts[i], q, book.bid_price, book.ask_price, nb["broker"].fees))
+                    self.fault("neighbour_account_traded")
+                elif what < 0.8:
+                    nb["broker"].net_liquidation_value(raise_if_broke=False)
+                    self.fault("neighbour_account_valued")
+                else:
+                    nb["broker"].marking_to_market()
+                    self.fault("neighbour_account_marked")
+        except Exception:
+            self.fault("neighbour_account_raised")
 
     # -- helpers --------------------------------------------------------
     def probe(self, name, n=1):
@@ -393,6 +430,8 @@ class AcctSim(object):
             L.book[i] = (bid, ask)
         else:
             self.fault("late_quote_for_discontinued")
+        if bid > ask:
+            self.fault("crossed_quote")
         if isnan(bid) or isnan(ask):
             self.fault("nan_quote")
             if L.liq_missing(i):
@@ -963,7 +1002,11 @@ class AcctSim(object):
                 pre_obs = None
             if self.violations:
                 break
+            if self.nb is not None and name == "quote":
+                self.neighbour_activity(op)      # just before the primary's quote: its reference prices move first
             rec = handlers[name](op)
+            if self.nb is not None:
+                self.neighbour_activity(op)
             self.stats["ops"] += 1
             if self.violations:
                 self.log.append([k, name, canon(rec), "VIOLATION"])
